@@ -17,12 +17,13 @@ import (
 
 	"verifsim/chainsim"
 	"verifsim/core"
+	"verifsim/storesim"
 )
 
 var engineOf = map[string]string{
 	"C01": "chainsim", "C02": "chainsim", "C03": "chainsim", "C04": "chainsim", "C05": "chainsim", "C06": "chainsim",
 	"C07": "chainsim", "C08": "chainsim", "C09": "chainsim", "C10": "chainsim", "C11": "chainsim", "C17": "chainsim",
-	"C12": "storesim", "C13": "storesim", "C14": "storesim", "C15": "kvsim", "C16": "kvsim", "C19": "keysim",
+	"C12": "store+chain", "C13": "store+chain", "C14": "store+chain", "C15": "kvsim", "C16": "kvsim", "C19": "keysim",
 }
 
 func engineByName(n string) core.Engine {
@@ -36,7 +37,12 @@ func engineByName(n string) core.Engine {
 	return nil
 }
 
-var extraEngines = map[string]core.Engine{}
+var extraEngines = map[string]core.Engine{
+	"storesim": storesim.Engine{},
+	// C12-C14: mostly the multistore on its own, every 17th run the whole application (Info / Query / crash in Commit through BaseApp)
+	"store+chain": core.Multi{Label: "store+chain", Engines: map[string]core.Engine{"storesim": storesim.Engine{}, "chainsim": chainsim.Engine{}},
+		Pattern: []string{"storesim", "storesim", "storesim", "storesim", "storesim", "storesim", "storesim", "storesim", "storesim", "storesim", "storesim", "storesim", "storesim", "storesim", "storesim", "storesim", "chainsim"}}, // 17 entries: coprime with the worker count, so every worker gets both kinds
+}
 
 func envSeed() uint64 {
 	if s := os.Getenv("VERIF_SEED"); s != "" {
